@@ -36,7 +36,7 @@ def run(ctx):
                 "distinct = distinct token stream")
     for e in evs[:2]:
         res.sample({"kind": e["kind"], "ops": e.get("ops"), "raw": e.get("raw", "")[:200], "expect": dict(list(e.get("expect", {}).items())[:3])})
-    res.assumptions = ["colours: a glyph inside several colour functions may show any one of them",
+    res.assumptions = ["colours: of several colour functions of one plane around a glyph the innermost one shows (as the renderers rely on: a mark inside code, an error inside a quote)",
                        "decorations added by the style layer itself (bullets, quote bars, superscripts) are only checked for neutrality at breaks"]
     for b in bad:
         e = evs[b["line"] - 1]
